@@ -5,7 +5,25 @@ use crate::explore::Exec;
 
 pub fn judge_for(prop: &str) -> Option<fn(&Worker, &Scenario, &Exec) -> Judgement> {
     match prop {
+        "C01" => Some(c01::judge),
+        "C02" => Some(c02::judge),
+        "C03" => Some(c03::judge),
+        "C04" => Some(c04::judge),
+        "C05" => Some(c05::judge),
         "C06" => Some(c06::judge),
+        "C07" => Some(c07::judge),
+        "C08" => Some(c08::judge),
+        "C09" => Some(c09::judge),
+        "C10" => Some(c10::judge),
+        "C11" => Some(c11::judge),
+        "C12" => Some(c12::judge),
+        "C13" => Some(c13::judge),
+        "C14" => Some(c14::judge),
+        "C15" => Some(c15::judge),
+        "C16" => Some(c16::judge),
+        "C17" => Some(c17::judge),
+        "C18" => Some(c18::judge),
+        "C20" => Some(c20::judge),
         _ => None,
     }
 }
